@@ -1,4 +1,14 @@
 """C08 / C09: bucket data model.  Store.tla behaviours replayed into the real DataService."""
+PROPS = ["C08", "C09"]
+READY = True
+CLAIMS = {
+ "C08": dict(technique="TLA+ refinement (implementation-shaped bucket model vs LWW interval map) checked by TLC; TLC-simulated write histories replayed into the real DataService for all 11 timeframes",
+             text="TLC checks exhaustively (bounded intervals/values/rows/requests) that the implementation-shaped bucket model (WriteRecords grouping loop, year files, slot index with 0 = hole) refines the last-writer-wins interval map; TLC-generated histories are replayed step by step into the real server (Create/Write/Query) for every supported timeframe, boundary intervals (Jan 1, leap day, last interval, two years) and every fixed-width column type, and the real query result is compared with the abstract state after every request.",
+             note="Trusted: TLC, the Python concretisation (interval ids -> epochs, value ids -> per-type boundary values), UTC. Bounded: 5 interval ids over 2 years, 2 value ids, <=3 rows per request, 3 requests per history."),
+ "C09": dict(technique="TLA+ refinement (slot/blob model with stable tick sort vs time-ordered bag) checked by TLC; TLC-simulated histories replayed into the real DataService for all 11 timeframes",
+             text="As C08 for variable-length buckets: TLC checks that the implementation-shaped model refines the time-ordered bag; TLC-generated histories (several records per interval, unsorted, duplicates, two years) are replayed into the real server for every timeframe with offset classes inside the interval; every record must come back exactly once, in non-decreasing order, with its values and a timestamp within one resolution step below the written one.",
+             note="Trusted: TLC, the Python concretisation; an emulation of the tick codec is used only to place offset classes relative to the known one-second-late window (KF-C09-1), never as the oracle."),
+}
 import calendar, itertools, json, os, random, shutil, sys
 import vlib
 from vlib import Result, Undecided
@@ -31,10 +41,37 @@ def year_len(y):
     return 366 * DAY if calendar.isleap(y) else 365 * DAY
 
 
+TICKS_DIV = 49710.269629629629629629629629629
+
+
+def emulate_ticks(off_ns, tfsec):
+    """The code's own tick encoding/decoding (io.GetIntervalTicks32Bit / executor.GetTimeFromTicks), in IEEE
+    doubles like Go.  Used only to pick offset classes that do / do not sit in the known 'one second late'
+    window and to predict the known deviation exactly; the property oracle does not use it."""
+    import math
+    ipd = 86400 // tfsec
+    seconds = float(off_ns // 10 ** 9) + float(off_ns % 10 ** 9) / 1e9
+    tps = float(ipd) * TICKS_DIV
+    ticks = int(tps * seconds)
+    if ticks >= 2 ** 32:
+        ticks = 2 ** 32 - 1
+    frac = float(ticks) / (float(ipd) * TICKS_DIV)
+    sub = 1e9 * (frac - math.floor(frac))
+    if sub >= 1e9:
+        sub -= 1e9
+        frac += 1
+    r = frac * 1e8
+    rounded = math.floor(r + 0.5) if r - math.floor(r) != 0.5 else (math.floor(r) + 1)  # math.Round: half away from zero
+    sec = int(rounded / 1e8)
+    nanos = int(sub + 0.5)
+    late = sec > int(math.floor(frac))
+    return sec, nanos, late
+
+
 class Concretisation:
     """interval id / offset class / value id  ->  concrete epoch, nanoseconds, column values."""
 
-    def __init__(self, rng, tfname, tfsec, ni0, ni1, no, schema, kind):
+    def __init__(self, rng, tfname, tfsec, ni0, ni1, no, schema, kind, edge=False):
         self.tf, self.tfsec, self.ni0, self.ni1, self.schema, self.kind = tfname, tfsec, ni0, ni1, schema, kind
         # year pairs: leap in second, leap in first, both leap (so the leap year's extra day is usable), far apart
         self.y0, self.y1 = rng.choice([(2019, 2020), (2020, 2021), (2020, 2024), (1999, 2000), (2023, 2025)])
@@ -53,23 +90,35 @@ class Concretisation:
             self.elapsed[-1] = common - tfsec
         res_ns = tfsec * 10 ** 9 / 2 ** 32
         self.res_ns = res_ns
+        self.res_int = -(-tfsec * 10 ** 9 // 2 ** 32)  # ceil, integer arithmetic (epochs in ns exceed float precision)
         tfns = tfsec * 10 ** 9
         # offset classes inside an interval, increasing, avoiding the last 5 ns of any second (known decode defect,
         # handled by the dedicated edge class in the variable check)
-        cand = sorted({0, 1, tfns // 4 + 3, tfns // 2, (tfns // 3) // 10 ** 9 * 10 ** 9 if tfns > 3 * 10 ** 9 else 7, tfns - 10,
-                       rng.randrange(0, tfns - 10)})
-        cand = [c for c in cand if 0 <= c < tfns and not (10 ** 9 - 6 < c % 10 ** 9)]
+        self.edge = -1
+        e = None
+        if edge and kind == "variable":
+            # optional edge class (the last one): a whole-second offset that the tick codec reports one second late
+            e = find_edge(rng, tfsec, tfns // 3, res_ns)
+            if e is not None:
+                self.edge = no - 1
+        lim = e if e is not None else tfns
+        nn = no - 1 if e is not None else no
+        cand = sorted({0, 1, lim // 4 + 3, lim // 2, (lim // 3) // 10 ** 9 * 10 ** 9 if lim > 3 * 10 ** 9 else 7, lim - 10,
+                       rng.randrange(0, lim - 10)})
+        cand = [c for c in cand if 0 <= c < lim and not emulate_ticks(c, tfsec)[2]]
         # classes must be distinguishable after decoding: at least 2 resolution steps apart
         offs = []
         for c in cand:
-            if not offs or c - offs[-1] > 2 * res_ns + 2:
+            if (not offs or c - offs[-1] > 2 * res_ns + 2) and lim - c > 2 * res_ns + 2:
                 offs.append(c)
-        if len(offs) < no:
+        if len(offs) < nn:
             raise Undecided("cannot build %d offset classes for %s" % (no, tfname))
-        idx = sorted(rng.sample(range(len(offs)), no))
+        idx = sorted(rng.sample(range(len(offs)), nn))
         self.offs = [offs[k] for k in idx]
-        if no >= 1 and kind == "variable" and rng.random() < 0.5:
+        if nn >= 1 and kind == "variable" and rng.random() < 0.5:
             self.offs[0] = 0
+        if e is not None:
+            self.offs.append(e)
         self.vperm = rng.sample(range(3), 3)
 
     def iv_epoch(self, i):
@@ -95,6 +144,25 @@ class Concretisation:
     def describe(self):
         return {"tf": self.tf, "years": [self.y0, self.y1], "elapsed_s": self.elapsed, "offs_ns": self.offs,
                 "schema": self.schema, "kind": self.kind}
+
+
+_EDGES = {}
+
+
+def edge_offsets(tfsec):
+    """all whole-second offsets of the timeframe that the tick codec reports one second late"""
+    if tfsec not in _EDGES:
+        _EDGES[tfsec] = [k * 10 ** 9 for k in range(1, tfsec) if emulate_ticks(k * 10 ** 9, tfsec)[2]]
+    return _EDGES[tfsec]
+
+
+def find_edge(rng, tfsec, above_ns, res_ns):
+    es = [e for e in edge_offsets(tfsec) if e > above_ns + 2 * res_ns + 2]
+    return rng.choice(es) if es else None
+
+
+def has_edge(tfsec):
+    return any(e > tfsec * 10 ** 9 // 3 + 2 * tfsec * 1e9 / 2 ** 32 + 2 for e in edge_offsets(tfsec))
 
 
 def result_rows(obs, key, schema, kind):
@@ -170,7 +238,7 @@ def match_variable(real, want_rows, c, late=()):
             r = want_rows[u]
             ivs = c.iv_epoch(r["i"]) * 10 ** 9
             wt = ivs + c.offs[r["o"]]
-            if wt - c.res_ns - 1 < t <= wt and ivs <= t < ivs + tfns and fvals_equal(vals, c.vals(r["v"]), c.schema):
+            if wt - c.res_int - 1 < t <= wt and ivs <= t < ivs + tfns and fvals_equal(vals, c.vals(r["v"]), c.schema):
                 hit = u
                 break
         if hit is None:
@@ -179,7 +247,33 @@ def match_variable(real, want_rows, c, late=()):
     return True
 
 
-FINDING_OF_DEV = {"DailyJan1Hole": "KF-C08-1", "PrevYearStale": "KF-C08-2"}
+def match_variable_known(real, known_rows, c):
+    """exact prediction of the known deviating behaviour: stored order, late rows displayed with the codec's time"""
+    if isinstance(real, str) or len(real) != len(known_rows):
+        return False
+    unused = list(range(len(known_rows)))
+    for (ep, ns, vals) in real:
+        t = ep * 10 ** 9 + ns
+        hit = None
+        for u in unused:
+            r = known_rows[u]
+            ivs = c.iv_epoch(r["i"]) * 10 ** 9
+            wt = ivs + c.offs[r["o"]]
+            if r.get("late"):
+                sec, nanos, _ = emulate_ticks(c.offs[r["o"]], c.tfsec)
+                ok = t == ivs + sec * 10 ** 9 + nanos
+            else:
+                ok = wt - c.res_int - 1 < t <= wt
+            if ok and fvals_equal(vals, c.vals(r["v"]), c.schema):
+                hit = u
+                break
+        if hit is None:
+            return False
+        unused.remove(hit)
+    return True
+
+
+FINDING_OF_DEV = {"DailyJan1Hole": "KF-C08-1", "PrevYearStale": "KF-C08-2", "LateSecond": "KF-C09-1"}
 
 
 def run(prop, tier):
@@ -187,13 +281,13 @@ def run(prop, tier):
     res = Result(prop, tier)
     rng = random.Random(vlib.seed() * 7919 + (8 if kind == "fixed" else 9))
     binary = vlib.build_harness()
-    devs = '{"DailyJan1Hole"}'
-    known = {k["id"]: k for k in vlib.known_findings(prop)}
+    devs = '{"DailyJan1Hole", "LateSecond"}'
+    known = {k["deviation"]: k for k in vlib.known_findings(prop)}
     quick = tier == "quick"
 
     # ---------------- E1: exhaustive model check of the refinement, both timeframe classes -----------------
     ni0, ni1 = 3, 2
-    no = 1 if kind == "fixed" else 2
+    no = 1 if kind == "fixed" else 3
     nv = 2
     mc_rows, mc_depth = (3, 2) if kind == "fixed" else (3, 1)
     if not quick:
@@ -201,7 +295,7 @@ def run(prop, tier):
     for tfc in ("intraday", "daily"):
         cfg = "Store_%s_%s_mc.cfg" % (kind, tfc)
         consts = dict(NI0=ni0, NI1=ni1, NV=nv, NO=no, Kind='"%s"' % kind, TfClass='"%s"' % tfc, MaxRows=mc_rows,
-                      Depth=mc_depth, Deviations=devs)
+                      Depth=mc_depth, EdgeOff=(no - 1 if kind == "variable" else 99), Deviations=devs)
         r = vlib.run_tlc("Store", cfg, timeout=1500,
                          cfg_text=vlib.cfg_text(consts, invariants=["ImplRefinesAbs", "DeviationsExplainAll"], view="View"))
         vlib.tlc_ok(r, cfg)
@@ -219,8 +313,9 @@ def run(prop, tier):
     for tfname, tfsec in TIMEFRAMES:
         tfc = "daily" if tfname == "1D" else "intraday"
         cfg = "Store_%s_%s_sim.cfg" % (kind, tfc)
+        edge = kind == "variable" and has_edge(tfsec)
         consts = dict(NI0=ni0, NI1=ni1, NV=nv, NO=no, Kind='"%s"' % kind, TfClass='"%s"' % tfc, MaxRows=3,
-                      Depth=depth, Deviations=devs)
+                      Depth=depth, EdgeOff=(no - 1 if edge else 99), Deviations=devs)
         r = vlib.run_tlc("Store", cfg, simulate=nbeh, depth=depth + 2, seed_=rng.randrange(1, 2 ** 31), workers=1, timeout=600,
                          cfg_text=vlib.cfg_text(consts, invariants=["Emit"], view="View"))
         vlib.tlc_ok(r, cfg)
@@ -230,7 +325,9 @@ def run(prop, tier):
         for beh in behs:
             sym += 1
             schema = SCHEMAS[sym % len(SCHEMAS)]
-            c = Concretisation(rng, tfname, tfsec, ni0, ni1, no, schema, kind)
+            c = Concretisation(rng, tfname, tfsec, ni0, ni1, no, schema, kind, edge=edge)
+            if edge and c.edge < 0:
+                raise Undecided('no edge offset found for %s' % tfname)
             key = "S%d/%s/G" % (sym, tfname)
             ops = []
             explicit_create = sym % 2 == 0
@@ -246,6 +343,7 @@ def run(prop, tier):
     obs = vlib.run_cases(binary, cases, timeout=3000)
     shutil.rmtree(root, ignore_errors=True)
     match = match_fixed if kind == "fixed" else match_variable
+    match_known = match_fixed if kind == "fixed" else match_variable_known
     nontrivial = set()
     for cid, (beh, c, key, explicit_create) in meta.items():
         o = obs.get(cid)
@@ -272,11 +370,10 @@ def run(prop, tier):
             if match(real, st["expect"], c):
                 continue
             hit = st["hit"]
-            if hit and match(real, st["known"], c):
+            if hit and match_known(real, st["known"], c):
                 for d in hit:
-                    fid = FINDING_OF_DEV[d]
-                    if fid in known:
-                        res.known_finding(known[fid], {"tf": c.tf, "rows": st["rows"], "years": [c.y0, c.y1]})
+                    if d in known:
+                        res.known_finding(known[d], {"tf": c.tf, "rows": st["rows"], "years": [c.y0, c.y1]})
                     else:
                         res.violation("deviation %s observed but not listed as known: step %d on %s; got %s, property demands %s" % (
                             d, k, key, real, st["expect"]), replay)
